@@ -466,7 +466,7 @@ def run_check(ctx, mod, args, t0):
         raise InfraError("driver does not answer ping")
     ctx.changed_files = changed_anchor_files(pid)
     if ctx.changed_files:
-        ctx.boost = int(os.environ.get("VERIF_BOOST", "3"))
+        ctx.boost = int(os.environ.get("VERIF_BOOST", "2"))
         ctx.note("anchored files differ from the fingerprinted tree: budgets x%d" % ctx.boost)
     mod.run(ctx)
     # 6. decision ---------------------------------------------------------------------------------
@@ -481,9 +481,13 @@ def run_check(ctx, mod, args, t0):
                 seen_known.append(v["signature"])
         else:
             unknown.append(v)
+    rdir = os.environ.get("VERIF_REPLAY_DIR") or os.path.join(ROOT, "replays")
     for sig in seen_known:
         print("KNOWN-FINDING: property=%s %s — %s" % (pid, sig, finding_sigs[sig].get("description", "")))
-    rdir = os.environ.get("VERIF_REPLAY_DIR") or os.path.join(ROOT, "replays")
+        # the concrete input that reproduced the recorded finding in this run (for triage and --replay)
+        v = next(x for x in ctx.violations if x["signature"] == sig)
+        write_json(os.path.join(rdir, "known", "%s-%s.json" % (pid, re.sub(r"[^A-Za-z0-9_.-]+", "_", sig)[:80])),
+                   dict(v, property=pid, kind="known-finding", tier=ctx.tier, seed=ctx.seed))
     done_sigs = set()
     for v in unknown:
         if v["signature"] in done_sigs:
